@@ -112,9 +112,11 @@ impl FileStack {
 
                 let libpath = lib.path.join(&include.path);
                 debug!("searching for `{}` in `{}`", include.path, lib.path.display());
-                if fs::canonicalize(&libpath).is_ok() {
+                // Push the canonical path: the visited set and the user inputs hold canonical paths,
+                // so any other spelling would let the same file be parsed (and defined) twice.
+                if let Ok(path) = fs::canonicalize(&libpath) {
                     debug!("adding include `{}` from directory", libpath.display());
-                    self.stack.push(libpath);
+                    self.stack.push(path);
                     return Ok(());
                 }
             } else {
